@@ -358,15 +358,149 @@ def writtenBase (x : CPx) : WireConfig.Base :=
   { name := Str.ofString "w", type := x.type, localIP := [], limitMode := [], enc := x.enc, comp := x.comp
   , plugin := x.plugin, enableHTTP2 := none }
 
+/-- a client-side login rig: the connector configuration and the state of its files -/
+structure LRig where
+  cfg : ClientCfg
+  disk : WireHist.CliDisk
+
 structure WState where
   rig : Option Rig := none
   crig : Option CRig := none
+  hrigs : List (String × WireHist.St) := []
+  lrigs : List (String × LRig) := []
+
+def putRig {α : Type} (rs : List (String × α)) (id : String) (x : α) : List (String × α) :=
+  (id, x) :: rs.filter (fun p => p.1 != id)
+
+def getRig {α : Type} (rs : List (String × α)) (id : String) : Option α := (rs.find? (fun p => p.1 == id)).map (·.2)
+
+def fileSt : String → Option WireHist.FileSt
+  | "ok" => some .ok
+  | "empty" => some .empty
+  | "bad" => some .empty
+  | "gone" => some .gone
+  | _ => none
+
+def attemptStr : WireHist.Attempt → String
+  | .noConn => "conn=0;up=0;clear=0;seen=0"
+  | .tlsConn v => s!"conn=1;up={bit v};clear=0;seen=0"
+  | .plainConn => "conn=1;up=1;clear=1;seen=1"
+
+/-- the property predicate on the relay's own observation (`clear=`, `seen=`) -/
+def loginProp (tls : Bool) (impl : String) : Option Bool :=
+  match wireResBool impl "clear", wireResBool impl "seen" with
+  | some cl, some sn => some (C05.loginObsOk tls cl sn)
+  | _, _ => none
 
 def two (a b : Bool) : String := bit a ++ bit b
 
 def wireStep2 (st : WState) (tok : List String) (impl : String) : WState × Verdict :=
   match tok with
   | ["reset"] => ({}, verdictOf "-" impl)
+  | "hstart" :: rest =>
+    match wireKV rest "r", wireBool rest "force", wireNat rest "sca", wireNat rest "scert" with
+    | some id, some f, some sca, some scert =>
+      let cfg : ServerCfg := { force := f, trustedCA := sca != 0, certGiven := scert != 0 }
+      let d0 : WireHist.SrvDisk :=
+        { certIssuer := if scert = 0 then none else some scert, ca := if sca = 0 then none else some sca }
+      match WireHist.start cfg d0 with
+      | some r => ({ st with hrigs := putRig st.hrigs id { run := r, disk := d0 } }, verdictOf "up=1" impl)
+      | none => (st, verdictOf "up=0" impl)
+    | _, _, _, _ => (st, .bad "hstart")
+  | "hrepl" :: rest =>
+    match wireKV rest "r", wireKV rest "what", wireKV rest "to" with
+    | some id, some what, some to =>
+      match getRig st.hrigs id with
+      | none => (st, verdictOf "norig" impl)
+      | some h =>
+        let d := h.disk
+        let n := to.toNat?
+        let d' : WireHist.SrvDisk :=
+          if what == "cert" then
+            (if !h.run.cfg.certGiven then d else { d with certIssuer := n, certGen := d.certGen + 1 })
+          else
+            (if !h.run.cfg.trustedCA then d else { d with ca := n, caEmpty := to == "bad" })
+        ({ st with hrigs := putRig st.hrigs id (WireHist.step h (.replace d')) }, verdictOf "-" impl)
+    | _, _, _ => (st, .bad "hrepl")
+  | "hwait" :: rest =>
+    match wireKV rest "r", wireNat rest "ms" with
+    | some id, some ms =>
+      match getRig st.hrigs id with
+      | none => (st, verdictOf "norig" impl)
+      | some h => ({ st with hrigs := putRig st.hrigs id (WireHist.step h (.wait ms)) }, verdictOf "-" impl)
+    | _, _ => (st, .bad "hwait")
+  | "hprobe" :: rest =>
+    match wireKV rest "r", wireProto rest, wireBool rest "tls", wireBool rest "custom", wireNat rest "ccert" with
+    | some id, some pr, some tls, some custom, some ccert =>
+      match getRig st.hrigs id with
+      | none => (st, verdictOf "norig" impl)
+      | some h =>
+        let tokOk := wireBool rest "tok" != some false
+        let c : ClientCfg :=
+          { tlsEnable := tls, disableCustomFirstByte := !custom, trustedCA := false, certGiven := ccert != 0
+          , protocol := pr, serverName := [], serverAddr := loopback }
+        let cli : Option Nat := if ccert = 0 then none else some ccert
+        let up := WireHist.probeUp h c cli
+        let m := if up then (if tokOk then "up=1" else "up=0:loginerr") else "up=0"
+        let interpreted := impl == "up=1" || impl == "up=0:loginerr"
+        -- property, at this point of the rig's history: an answer from frps only for a peer the force / trusted-CA
+        -- rules admit (`histObsOk_sound`: with a trusted CA, a TLS peer with a certificate of the CA frps loaded)
+        (st, verdictOf m impl (some (C05.histObsOk h c cli interpreted)))
+    | _, _, _, _, _ => (st, .bad "hprobe")
+  | "lstart" :: rest =>
+    match wireKV rest "r", wireBool rest "tls", wireBool rest "custom", wireBool rest "mux", wireKV rest "ca",
+          wireKV rest "pair" with
+    | some id, some tls, some custom, some mux, some ca, some pair =>
+      match (if ca == "none" then some WireHist.FileSt.ok else fileSt ca),
+            (if pair == "none" then some WireHist.FileSt.ok else fileSt pair) with
+      | some cs, some ps =>
+        let c : ClientCfg :=
+          { tlsEnable := tls, disableCustomFirstByte := !custom, trustedCA := ca != "none", certGiven := pair != "none"
+          , serverName := [], serverAddr := loopback, tcpMux := mux }
+        ({ st with lrigs := putRig st.lrigs id { cfg := c, disk := { ca := cs, pair := ps } } }, verdictOf "-" impl)
+      | _, _ => (st, .bad "lstart file state")
+    | _, _, _, _, _, _ => (st, .bad "lstart")
+  | "lfile" :: rest =>
+    match wireKV rest "r", wireKV rest "what", (wireKV rest "to").bind fileSt with
+    | some id, some what, some fs =>
+      match getRig st.lrigs id with
+      | none => (st, verdictOf "norig" impl)
+      | some l =>
+        let d := l.disk
+        let d' : WireHist.CliDisk :=
+          if what == "ca" then (if l.cfg.trustedCA then { d with ca := fs } else d)
+          else (if l.cfg.certGiven then { d with pair := fs } else d)
+        ({ st with lrigs := putRig st.lrigs id { l with disk := d' } }, verdictOf "-" impl)
+    | _, _, _ => (st, .bad "lfile")
+  | "ltry" :: rest =>
+    match wireKV rest "r" with
+    | some id =>
+      match getRig st.lrigs id with
+      | none => (st, verdictOf "norig" impl)
+      | some l =>
+        -- property, on the relay's own observation of this attempt: TLS switched on ⇒ no connection with client
+        -- bytes outside a TLS record stream, the Login's marker not readable (`attempts_never_plain`)
+        (st, verdictOf (attemptStr (WireHist.attempt l.cfg l.disk)) impl (loginProp l.cfg.tlsEnable impl))
+    | none => (st, .bad "ltry")
+  | "lsvc" :: rest =>
+    match wireBool rest "tls" with
+    | some tls =>
+      -- a real client.Service whose file appears after its first attempt: its own retry loop comes up, over TLS
+      let m := if tls then "up=1;clear=0;seen=0" else "up=1;clear=1;seen=1"
+      (st, verdictOf m impl (loginProp tls impl))
+    | none => (st, .bad "lsvc")
+  | "wsraw" :: rest =>
+    match wireBool rest "force", wireNat rest "b", (wireKV rest "hdr").bind unhx with
+    | some f, some b, some hdr =>
+      let s : ServerCfg := { force := f, trustedCA := false, certGiven := false, tcpMux := false }
+      let m := match WireHist.wsPeerReply s [([], hdr)] b with
+        | some t => s!"resp={t}"
+        | none => "resp=none"
+      -- property: a forcing server answers a websocket peer without TLS with no protocol frame, whatever the byte
+      -- and whatever its upgrade request said (`ws_forced_peer_uninterpreted`)
+      let prop := !(serverForce s) || impl == "resp=none" || impl == "resp=noupgrade"
+      (st, verdictOf m impl (some prop))
+    | _, _, _ => (st, .bad "wsraw")
   | "cfgload" :: rest =>
     match wireKV rest "fmt", wireBool rest "pfx", (wireKV rest "type").bind parsePxType,
           (wireKV rest "plugin").bind parsePlugin, wireKV rest "enc", wireKV rest "comp", wireKV rest "mode",
